@@ -62,6 +62,12 @@ check("C08", "exploration", "bench+rfc_response",
       "Trusted: the reference mapping written from the settings documentation; header_map=dangerous excluded as documented-unsafe; gevent/eventlet scheduling is represented by switching connections at blocking reads.",
       "DESIGN.md section 3, C08")
 
+check("C05", "exploration", "bench+rfc_response",
+      "exhaustive enumeration of truncations (every offset) x client endings (half-close, close, reset, reset between read and reply), single-byte mutations (14-byte alphabet at every offset) and the C01 must-reject corpus through the real handle() of 5 worker configurations, TCP and unix peers; follow-up plain request on the same worker object",
+      "Every hostile stream of the stated finite spaces is served by the real per-connection code (except ladders, handle_error, write_error, finally-close); the application call counter is compared with the strict reference reader's count of acceptable requests, the reply bytes with the strict response reader (at most one error reply, Connection: close, exact Content-Length, nothing after it), the server end must be closed and unused afterwards, nothing may escape handle(), the worker must stay alive and serve a plain request every 20 connections.",
+      "Trusted: vlib/rfc_request.py and vlib/rfc_response.py; fault injection is limited to the four client endings; inputs needing two or more mutations are outside the bound (thorough adds reset-after-read on all mutations).",
+      "DESIGN.md section 3, C05")
+
 ALL = ["C%02d" % i for i in range(1, 21)]
 for pid in ALL:
     if pid not in CHECKS:
